@@ -1,7 +1,10 @@
 """C17 — memory.atomic.wait / notify: no lost wake-ups, exact counts, exact return codes."""
 import collections
 
-from .. import f1, sched, cexec
+import os
+import subprocess
+
+from .. import f1, sched, cexec, wasm
 from ..choice import Chooser, shrink
 
 ID = 'C17'
@@ -54,7 +57,8 @@ def gen_case(ch, params):
         threads[str(t)] = ops
     nd = ch.pick((0, 8, 40, 120, 300))
     dec = bytes(ch.below(256) for _ in range(nd)).hex()
-    return {'threads': threads, 'addrs': addrs, 'decisions': dec, 'spurious': ch.pick((0, 1, 3)), 'imported': ch.below(4) == 0}
+    return {'threads': threads, 'addrs': addrs, 'decisions': dec, 'spurious': ch.pick((0, 1, 3)), 'imported': ch.below(4) == 0,
+            'ndebug': ch.below(5) == 0}
 
 
 def evaluate(case):
@@ -152,16 +156,158 @@ def minimise(case, sig, budget=80):
     return best
 
 
+# ------------------------------------------------------------------------------------------------ real threads: first wait of a memory
+# vsched switches threads only at synchronisation calls; an access that bypasses the mutex altogether (a lock-free "fast path")
+# is invisible to it.  This job runs the hand-over  { T1: wait32(a, 0, 2 s) }  ||  { T2: store32(a, 1); notify(a, 1) }  with real
+# threads on a FRESH memory each round (the first wait creates the wait-list structures) with a swept start skew, in an optimised
+# build and in a ThreadSanitizer build.  Whatever the interleaving, exactly two outcomes are linearizable:
+#   (wait = 1 not-equal, notify = 0)  - the store came before the waiter looked
+#   (wait = 0 woken,     notify = 1)  - the waiter was enqueued before the notify took the mutex
+# a timeout (2) or any other pair is a lost wake-up / phantom count; any ThreadSanitizer report is a data race.
+RACE_DRIVER = r'''
+#include <stdio.h>
+#include <stdlib.h>
+#include <string.h>
+#include <pthread.h>
+#include "m.h"
+void trap(Trap t) { fprintf(stderr, "trap %d\n", (int)t); abort(); }
+#ifdef VF_IMPORTED_MEMORY
+static wasmMemory* vf_shared;
+static void* vf_resolve(const char* module, const char* name) {
+    (void)module;
+    if (strcmp(name, "memory") == 0) return vf_shared;
+    return NULL;
+}
+#define VF_RESOLVER vf_resolve
+#else
+#define VF_RESOLVER NULL
+#endif
+static mInstance* inst;
+static pthread_barrier_t bar;
+static volatile int skew_w, skew_n;
+static U32 ADDR;
+static U32 wres, nres;
+static void spin(int n) { volatile int k; for (k = 0; k < n; k++) { } }
+static void* waiter(void* p) { (void)p; pthread_barrier_wait(&bar); spin(skew_w); wres = m_wait32(inst, ADDR, 0, 2000000000ULL); return NULL; }
+static void* notifier(void* p) { (void)p; pthread_barrier_wait(&bar); spin(skew_n); m_store32(inst, ADDR, 1); nres = m_notify(inst, ADDR, 1); return NULL; }
+int main(int argc, char** argv) {
+    int rounds = atoi(argv[1]), r, bad = 0; unsigned long c10 = 0, c01 = 0;
+    (void)argc;
+    ADDR = (U32)atoi(argv[2]);
+    for (r = 0; r < rounds; r++) {
+        pthread_t a, b;
+        inst = (mInstance*)calloc(1, sizeof(mInstance));
+#ifdef VF_IMPORTED_MEMORY
+        vf_shared = wasmMemoryAllocate(1, VF_IMPORTED_MEMORY, true);
+#endif
+        mInstantiate(inst, VF_RESOLVER);
+        skew_w = (r % 7) * 40; skew_n = ((r / 7) % 9) * 40;
+        pthread_barrier_init(&bar, NULL, 2);
+        pthread_create(&a, NULL, waiter, NULL); pthread_create(&b, NULL, notifier, NULL);
+        pthread_join(a, NULL); pthread_join(b, NULL);
+        pthread_barrier_destroy(&bar);
+        if (wres == 1 && nres == 0) c10++;
+        else if (wres == 0 && nres == 1) c01++;
+        else { if (bad++ < 3) printf("BAD round %d: wait returned %u, notify returned %u\n", r, wres, nres); }
+    }
+    printf("R %d %lu %lu %d\n", rounds, c10, c01, bad);
+    return bad ? 3 : 0;
+}
+'''
+_race = {}
+
+
+def race_binary(tsan, imported):
+    key = (tsan, imported)
+    if key in _race and os.path.exists(_race[key]):
+        return _race[key]
+    d = cexec.new_dir('rw')
+    tr = cexec.translate(wasm.encode(sched.harness_module(imported)), d, 'm', (), 'plain')
+    if tr.rc != 0:
+        raise cexec.InfraError('translate failed')
+    open(os.path.join(d, 'drv.c'), 'w').write(RACE_DRIVER)
+    cmd = ['clang', '-g', '-w'] + (['-O1', '-fsanitize=thread'] if tsan else ['-O2']) + \
+        (['-DVF_IMPORTED_MEMORY=%d' % sched.MAXPAGES] if imported else []) + \
+        ['-DWASM_THREADS_PTHREADS', '-I', os.path.join(cexec.REPO, 'w2c2'), '-I', os.path.join(cexec.REPO, 'futex'), 'drv.c', 'm.c'] + \
+        [os.path.join(cexec.REPO, 'futex', f) for f in cexec.FUTEX_SRCS] + ['-o', 'rw', '-lpthread', '-lm']
+    r = cexec.run(cmd, cwd=d)
+    if r.returncode != 0:
+        raise cexec.InfraError('building the first-wait race harness failed: %s' % r.stderr.decode(errors='replace')[-1200:])
+    _race[key] = os.path.join(d, 'rw')
+    return _race[key]
+
+
+def run_race(case):
+    exe = race_binary(case['tsan'], case['imported'])
+    env = dict(os.environ)
+    env['TSAN_OPTIONS'] = 'exitcode=96:report_thread_leaks=0'
+    try:
+        r = subprocess.run([exe, str(case['rounds']), str(case['addr'])], stdout=subprocess.PIPE, stderr=subprocess.PIPE, env=env, timeout=600)
+    except subprocess.TimeoutExpired:
+        return ('race-timeout', 'first-wait race harness did not finish (a waiter hangs?)'), None
+    out = r.stdout.decode(errors='replace')
+    stats = None
+    for ln in out.splitlines():
+        if ln.startswith('R '):
+            stats = [int(x) for x in ln.split()[1:]]
+    if r.returncode == 3:
+        return ('race-outcome', 'first wait of a memory racing with store+notify: ' + ' | '.join(l for l in out.splitlines() if l.startswith('BAD'))[:400]), stats
+    if r.returncode != 0:
+        err = r.stderr.decode(errors='replace')
+        locs = [l.strip() for l in err.splitlines() if l.strip().startswith('#0')][:2]
+        return ('race-tsan:' + f1.normalize_diag(' '.join(locs))[:80], 'ThreadSanitizer / crash in the first-wait race harness (exit %d): %s' % (r.returncode, err[:1200])), stats
+    return None, stats
+
+
+def race_task(wid, seed, params):
+    res = {'evaluations': 0, 'nontrivial': set(), 'classes': collections.Counter(), 'samples': [], 'violations': [],
+           'infra': [], 'extra': collections.Counter()}
+    for ci in range(params['ncases']):
+        ch = Chooser(seed * 1000003 + ci)
+        case = {'kind': 'race', 'tsan': bool(ci % 2), 'imported': ch.below(3) == 0, 'rounds': params['rounds'] // (8 if ci % 2 else 1),
+                'addr': ch.pick((64, 4096, 65536 - 8 - 16))}
+        try:
+            bad, stats = run_race(case)
+        except cexec.InfraError as e:
+            res['infra'].append(str(e))
+            break
+        if stats:
+            res['evaluations'] += stats[0]
+            res['classes']['race_store_first'] += stats[1]
+            res['classes']['race_waiter_first'] += stats[2]
+            if stats[1] and stats[2]:
+                res['nontrivial'].add(f1.hx(repr(case)))
+        res['classes']['race_tsan_build' if case['tsan'] else 'race_O2_build'] += 1
+        if bad and not res['violations']:
+            res['violations'].append({'signature': 'c17:' + bad[0], 'summary': bad[1][:800], 'replay': {'kind': 'race', 'case': case, 'message': bad[1][:2500]}})
+    if res['evaluations']:
+        res['samples'].append('first-wait races with real threads: both orders observed = %s' % bool(res['nontrivial']))
+    res['extra'] = dict(res['extra'])
+    return res
+
+
+def dispatch(wid, seed, params):
+    if params.get('race'):
+        return race_task(wid, seed, params)
+    return task(wid, seed, params)
+
+
 def replay(rp):
+    if rp.get('kind') == 'race':
+        for _ in range(3):
+            bad, _ = run_race(rp['case'])
+            if bad:
+                return True
+        return False
     bad, _ = evaluate(rp['case'])
     return bad is not None
 
 
 def plan(tier, seed):
     if tier == 'quick':
-        return [{'ncases': 60, 'schedules': 12, 'maxops': 6} for _ in range(32)]
-    return [{'ncases': 1200, 'schedules': 25, 'maxops': 8} for _ in range(64)]
+        return [{'ncases': 60, 'schedules': 12, 'maxops': 6} for _ in range(32)] + [{'race': True, 'ncases': 2, 'rounds': 4000} for _ in range(4)]
+    return [{'ncases': 1200, 'schedules': 25, 'maxops': 8} for _ in range(64)] + [{'race': True, 'ncases': 6, 'rounds': 40000} for _ in range(8)]
 
 
 def run(tier, seed):
-    return f1.standard_run(ID, LEVEL, RULE, ASSUME, plan(tier, seed), task, replay, tier, seed)
+    return f1.standard_run(ID, LEVEL, RULE, ASSUME, plan(tier, seed), dispatch, replay, tier, seed)
